@@ -169,6 +169,7 @@ PROPS["C10"] = {
         ("contracts.unmarshal", "xdis.unmarshal:_VersionIndependentUnmarshaller.t_tuple"),
         ("contracts.unmarshal", "xdis.unmarshal:_VersionIndependentUnmarshaller.t_frozenset"),
         ("contracts.unmarshal", "xdis.unmarshal:_VersionIndependentUnmarshaller.t_set"),
+        ("contracts.unmarshal", "xdis.unmarshal:_VersionIndependentUnmarshaller.t_list"),
     ],
     "ground": [("ground.c01", "check")],
     "bounded": [("ground.unmarshal_diff", "check"), ("ground.consts_diff", "check", {})],
